@@ -32,6 +32,7 @@ def _mode_fns(fx, field):
     """Workspace functions that branch on Config.<field> (discriminant switch or == comparison), directly or
     through small accessor/helper functions (`config.reflink_mode()`): the semantic identity of `needs_backup` /
     `try_reflink` whatever they are called."""
+    _fx_seen[id(fx)] = fx
     k = ("modefns", id(fx), field)
     if k in _cache:
         return _cache[k]
@@ -55,8 +56,30 @@ def _mode_fns(fx, field):
 
 
 def _returns_bool(f):
+    """The function answers a yes/no question: a bool, or a workspace enum of two field-less variants
+    (`ReflinkOutcome::{Cloned, NotCloned}`), possibly inside a Result."""
     ty = f.locals[0]["ty"]
-    return ty == "bool" or ty.startswith("core::result::Result<bool,")
+    if ty == "bool" or ty.startswith("core::result::Result<bool,"):
+        return True
+    inner = ty
+    if ty.startswith("core::result::Result<"):
+        import expand
+        head, ga = expand.split_generics(ty)
+        inner = ga[0] if ga else ty
+    fx = getattr(f, "fx", None)
+    adts = getattr(fx, "adts", None) if fx is not None else None
+    if adts is None:
+        for fx_ in list(_fx_seen.values()):
+            adts = fx_.adts
+            break
+    a = (adts or {}).get(inner)
+    if a is None or a.get("kind") != "enum" or inner.split("::")[0] not in ("libxcp", "libfs", "xcp"):
+        return False
+    vs = a.get("variants", [])
+    return len(vs) == 2 and all(not v.get("fields") for v in vs)
+
+
+_fx_seen = {}
 
 
 def stop_set(fx):
